@@ -191,6 +191,19 @@ impl MessageKind
 }
 
 
+#[cfg(hlorenzi_customasm_verif)]
+impl Report
+{
+	/// Verification hook (add-only): read access to the collected
+	/// top-level messages (each carries its kind, optional byte span,
+	/// text and nested messages).
+	pub fn verif_messages(&self) -> &[Message]
+	{
+		&self.messages
+	}
+}
+
+
 impl Report
 {
 	pub fn new() -> Report
